@@ -238,8 +238,16 @@ class guard:
     leaks = 0          # actions the code under test put on the real-time TimeoutScheduler during the current run
     hangs = 0          # after a few interrupted runs in one process the remaining ones are cut short (0.3 s) to bound the wall time
 
-    def __init__(self, seconds=4.0):
-        self.seconds = seconds if guard.hangs < 5 else 0.3
+    def __init__(self, seconds=6.0):
+        # wall-clock limit, stretched with the machine's load (other checks, sweeps and builders share the box): a run that is merely
+        # starved of CPU must not be reported as a hang
+        import os
+
+        try:
+            factor = max(1.0, 3.0 * os.getloadavg()[0] / (os.cpu_count() or 1))
+        except OSError:
+            factor = 1.0
+        self.seconds = (seconds if guard.hangs < 5 else 1.5) * factor
 
     def __enter__(self):
         import signal
